@@ -94,14 +94,36 @@ pub fn corruptions() -> Vec<Corruption> {
         Corruption { name: "LST sub-denom with a digit", apply: |m, _| m.liquid_stake_token_denom = "umilk7IA".into(), section: 0 },
         Corruption { name: "LST sub-denom with a slash", apply: |m, _| m.liquid_stake_token_denom = "umilk/TIA".into(), section: 0 },
         Corruption { name: "LST sub-denom too short", apply: |m, _| m.liquid_stake_token_denom = "abc".into(), section: 0 },
+        Corruption { name: "LST sub-denom with a leading space", apply: |m, _| m.liquid_stake_token_denom = " umilkTIA".into(), section: 0 },
+        Corruption { name: "LST sub-denom with a trailing newline", apply: |m, _| m.liquid_stake_token_denom = "umilkTIA\n".into(), section: 0 },
+        Corruption { name: "LST sub-denom with a trailing tab", apply: |m, _| m.liquid_stake_token_denom = "umilkTIA\t".into(), section: 0 },
+        Corruption { name: "LST sub-denom with an inner space", apply: |m, _| m.liquid_stake_token_denom = "umilk TIA".into(), section: 0 },
+        Corruption { name: "LST sub-denom with a non-ASCII letter", apply: |m, _| m.liquid_stake_token_denom = "umilkT\u{ef}A".into(), section: 0 },
+        Corruption { name: "LST sub-denom with a dash", apply: |m, _| m.liquid_stake_token_denom = "umilk-TIA".into(), section: 0 },
+        Corruption { name: "LST sub-denom of three letters padded with a space", apply: |m, _| m.liquid_stake_token_denom = "abc ".into(), section: 0 },
+        Corruption { name: "native token denom with a leading space", apply: |m, _| m.native_chain_config.token_denom = " utia".into(), section: S_NATIVE },
+        Corruption { name: "native token denom with a trailing newline", apply: |m, _| m.native_chain_config.token_denom = "utia\n".into(), section: S_NATIVE },
+        Corruption { name: "native token denom with a non-ASCII letter", apply: |m, _| m.native_chain_config.token_denom = "uti\u{e4}".into(), section: S_NATIVE },
+        Corruption { name: "staked-asset denom padded with a space", apply: |m, _| m.protocol_chain_config.ibc_token_denom = format!(" ibc/{}", "C".repeat(64)), section: S_PROTOCOL },
         Corruption { name: "LST sub-denom empty", apply: |m, _| m.liquid_stake_token_denom = "".into(), section: 0 },
     ]
 }
 
-fn instantiate_with(msg: InstantiateMsg, who: &Who) -> (Chain, bool) {
+fn instantiate_with(f: &Filter, msg: InstantiateMsg, who: &Who) -> (Chain, bool) {
     let mut chain = Chain::new(who.clone());
+    let sub = msg.liquid_stake_token_denom.clone();
     let r = chain.tx("instantiate", &who.admin.clone(), &[], |d, e, i| staking::contract::instantiate(d, e, i, msg));
     let ok = r.is_ok();
+    if ok {
+        // C19: whatever sub-denom the contract accepts, the denom it creates is the one it will mint, burn and report
+        let cfg = staking::state::CONFIG.load(&chain.deps.storage).unwrap();
+        let created: Vec<&(String, String)> = chain.w.created.iter().filter(|(s, _)| *s == who.contract).collect();
+        claim(f, "C19:instantiation creates exactly one denom, for the configured sub-denom, verbatim", created.len() == 1 && created[0].1 == sub);
+        claim(f, "C19:the stored LST denom is factory/<contract>/<created sub-denom>", created.len() == 1 && cfg.liquid_stake_token_denom == format!("factory/{}/{}", who.contract, created[0].1));
+        claim(f, "C14:an accepted LST sub-denom is alphabetic and longer than three characters", sub.len() > 3 && sub.chars().all(|c| c.is_ascii_alphabetic()));
+        let nd = &cfg.native_chain_config.token_denom;
+        claim(f, "C14:an accepted native token denom is alphabetic and longer than three characters", nd.len() > 3 && nd.chars().all(|c| c.is_ascii_alphabetic()));
+    }
     if let crate::world::Tx::Panic(p) = &r {
         symcore::prove(&format!("C16:no panic [{}]", crate::step::panic_key(p)), "false".into());
     }
@@ -119,15 +141,15 @@ pub fn matrix_case(cfg: CfgSpec, idx: usize) -> Case {
             let min = Uint128::new(symcore::var("min_stake"));
             let good = scen::init_msg(&who, &CfgSpec { treasury: true, oracle: true, ..cfg.clone() }, fee, min);
             // instantiate
-            let (_c0, ok0) = instantiate_with(good.clone(), &who);
+            let (_c0, ok0) = instantiate_with(f, good.clone(), &who);
             claim(f, "C14:the uncorrupted configuration is accepted at instantiation", ok0);
             let mut bad = good.clone();
             (c.apply)(&mut bad, &who);
-            let (_c1, ok1) = instantiate_with(bad.clone(), &who);
+            let (_c1, ok1) = instantiate_with(f, bad.clone(), &who);
             claim(f, &format!("C14:instantiate refuses: {}", c.name), !ok1);
             // UpdateConfig carrying the corrupted section (all other sections absent)
             if c.section != 0 {
-                let (mut chain, _) = instantiate_with(good.clone(), &who);
+                let (mut chain, _) = instantiate_with(f, good.clone(), &who);
                 let before = dump(&chain.deps.storage);
                 use crate::cfgops::{S_FEE, S_MONITORS, S_NATIVE, S_PROTOCOL};
                 let mk = |m: &InstantiateMsg, also_protocol: bool| ExecuteMsg::UpdateConfig {
@@ -160,7 +182,7 @@ pub fn hook_auth_case(len: usize) -> Case {
             let mut msg = scen::init_msg(&who, &CfgSpec { treasury: false, oracle: false, same_prefix: false, stopped: false }, fee, min);
             msg.protocol_chain_config.account_address_prefix = "p".repeat(len);
             msg.monitors = vec![];
-            let (mut chain, ok) = instantiate_with(msg, &who);
+            let (mut chain, ok) = instantiate_with(f, msg, &who);
             claim(f, "C14:protocol prefixes of 1..=83 characters are accepted, longer ones refused", ok == (len >= 1 && len <= 83));
             symcore::note(format!("outcome={}", if ok { "ok" } else { "err" }));
             if !ok {
@@ -216,7 +238,7 @@ pub fn channel_auth_case(i: usize, via_update: bool) -> Case {
             }
             msg.monitors = vec![];
             let proto = msg.protocol_chain_config.clone();
-            let (mut chain, ok) = instantiate_with(msg, &who);
+            let (mut chain, ok) = instantiate_with(f, msg, &who);
             claim(f, "C09:every `channel-<u64>` identifier is accepted by configuration validation", ok);
             if !ok {
                 symcore::note("outcome=err".into());
@@ -295,7 +317,7 @@ pub fn valset_case(perm: usize, via_update: bool) -> Case {
             if !via_update {
                 msg.native_chain_config.validators = order.clone();
             }
-            let (mut chain, ok) = instantiate_with(msg, &who);
+            let (mut chain, ok) = instantiate_with(f, msg, &who);
             claim(f, "C14:the uncorrupted configuration is accepted at instantiation", ok);
             if !ok {
                 symcore::note("outcome=err".into());
